@@ -428,6 +428,11 @@ class CompiledDRO:
         self.formula = self.r.m.do_math(primal=primal)
         self.cp = CProg(self.formula)
         self.iface = self.r.interface(self.formula, self.o)
+        # decisions / coefficients the declaration leaves free to differ must be different columns of the program
+        bycol = {}
+        for nm, c in self.iface.items():
+            bycol.setdefault(c, []).append(nm)
+        self.collisions = sorted(sorted(v) for v in bycol.values() if len(v) > 1)
         self.iface['t'] = 0
         o = self.o
         self.supports = {}
